@@ -661,7 +661,9 @@ def callMethod (ev : Ev) (C : Ctx) (bad : Err) (r : Obj) (f : Fn) (args : List E
   | .unpack, names =>
     match toIter r with
     | none => .error bad
-    | some (xs, e) => do
+    | some (xs, e) =>
+      if names.any (fun a => match a with | .lit (.str _) => false | .lit _ => true | _ => false) then .error bad
+      else do
       let ns ← evalList ev C names
       let strs := ns.filterMap fun v => match v with | .str s => some s | _ => none
       if strs.length != ns.length then .error bad
@@ -735,6 +737,18 @@ def callFn (ev : Ev) (C : Ctx) (f : Fn) (args : List Expr) (kw : List (Expr × E
         else do let r ← ev C recv; callMethod ev C .noFunction r f rest
   | _ => .error .unknownFunction          -- methods only
 
+/-- `map_args` type-checks *literal* arguments when the overloads are mapped, i.e. before any
+    argument is evaluated: a constant no overload of the operator accepts at its position makes
+    the call fail with NoMatchingFunctionException whatever the other operand would do -/
+def litOk (op : BinOp) : Expr → Bool
+  | .lit .null | .lit (.bool _) => !(op == .add || op == .sub || op == .mul)
+  | .lit (.str _) | .kw _ => op != .sub
+  | _ => true
+
+def isConst : Expr → Bool
+  | .lit _ | .kw _ => true
+  | _ => false
+
 /-- one layer of the evaluator over the knot `ev` -/
 def step (ev : Ev) (C : Ctx) : Expr → R Obj
   | .lit v => .ok (.val v)
@@ -743,7 +757,7 @@ def step (ev : Ev) (C : Ctx) : Expr → R Obj
   | .list es => do let vs ← evalList ev C es; pure (.val (.tuple vs))
   | .map kvs => do let ps ← evalPairs ev C kvs; mkDict ps
   | .index e args =>
-    if args.length = 1 || args.length = 2 then do
+    if (args.length = 1 || args.length = 2) && !isConst e then do
       let r ← ev C e
       let vs ← evalList ev C args
       indexer r vs
@@ -751,7 +765,9 @@ def step (ev : Ev) (C : Ctx) : Expr → R Obj
   | .un op e => do let r ← ev C e; unop op r
   | .bin .and a b => do let x ← ev C a; if truthyObj x then ev C b else pure x
   | .bin .or a b => do let x ← ev C a; if truthyObj x then pure x else ev C b
-  | .bin op a b => do let x ← ev C a; let y ← ev C b; binop op x y
+  | .bin op a b =>
+    if litOk op a && litOk op b then do let x ← ev C a; let y ← ev C b; binop op x y
+    else .error .noFunction
   | .arrow l r => do
     let c ← ev C l
     match c with
